@@ -279,6 +279,8 @@ func gen(t *rapid.T) Case {
 			ms = rapid.Permutation(ms).Draw(t, "order")
 		}
 		c.KeyIDText = vh.JoinMembers(ms, rapid.SampledFrom([]string{"", " "}).Draw(t, "ws"))
+		// JSON whitespace around the object: the text still decodes to the same KeyID
+		c.KeyIDText = rapid.SampledFrom([]string{"", "", "", " ", "\n", "\t \r\n"}).Draw(t, "lead") + c.KeyIDText + rapid.SampledFrom([]string{"", "", "", " ", "\n", "\r\n\t "}).Draw(t, "trail")
 	case k <= 17:
 		c.Kind = "nearmiss"
 		a := genAttrs(t)
@@ -315,7 +317,7 @@ func gen(t *rapid.T) Case {
 	return c
 }
 
-const rule = "certificates with KeyIDs built from attribute sets (16 flag combinations x touch policy {-1..4,7} x version, decorated with random transaction ids, principals, usage, extra members, member order), near-miss KeyIDs (one required member deleted / upper-cased / retyped, truncated text), free text and nil certificates; critical option nil-map / absent / empty / set, other critical options and look-alike names, extensions carrying the option name. Oracle: independently written decision table for GetType, Label = documented type name + 'SSH-' + transaction id (error for unknown), GetPrincipals suffix rules. Non-trivial: decodable KeyID with at least one flag set or the critical option present; distinct by Case hash."
+const rule = "certificates with KeyIDs built from attribute sets (16 flag combinations x touch policy {-1..4,7} x version, decorated with random transaction ids, principals, usage, extra members, member order, JSON whitespace inside and around the object), near-miss KeyIDs (one required member deleted / upper-cased / retyped, truncated text), free text and nil certificates; critical option nil-map / absent / empty / set, other critical options and look-alike names, extensions carrying the option name. Oracle: independently written decision table for GetType, Label = documented type name + 'SSH-' + transaction id (error for unknown), GetPrincipals suffix rules. Non-trivial: decodable KeyID with at least one flag set or the critical option present; distinct by Case hash."
 
 func TestC19Random(t *testing.T) {
 	vh.Run(t, vh.Spec[Case]{Property: "C19", Name: "TestC19Random", Rule: rule, Gen: gen, Exec: exec})
